@@ -113,7 +113,9 @@ class SimLoop(asyncio.BaseEventLoop):
         self.max_iters = max_iters
         self.max_same_instant = max_same_instant
         self._same_instant = 0
-        self.iter_cost = iter_cost
+        # every loop iteration costs at least 1 us of virtual time: code that polls
+        # the clock in a busy loop terminates in reality and must do so here
+        self.iter_cost = max(iter_cost, 1e-6)
         self.connector = None  # callable(protocol_factory, host, port) -> coroutine
         self.exc_contexts = []  # recorded call_exception_handler contexts
         self.dead_owners = set()
@@ -124,6 +126,7 @@ class SimLoop(asyncio.BaseEventLoop):
         self.all_tasks_created = []  # weak tracking not needed: short runs
         self.transports = []
         self.fatal = None  # exception raised inside simulator-owned code
+        self.spin_trace = []  # callbacks run just before a same-instant StepLimit
 
     # -- identity / clock ---------------------------------------------------
     def _next_serial(self):
@@ -156,7 +159,7 @@ class SimLoop(asyncio.BaseEventLoop):
             raise TypeError("delay must not be None")
         # a real loop needs > 1 us to come back to a timer: a positive delay too
         # small to move a float clock must not fire "at the same instant" forever
-        if 0 < delay < 1e-6:
+        if 0 <= delay < 1e-6:
             delay = 1e-6
         return self.call_at(self.time() + delay, callback, *args, context=context)
 
@@ -282,6 +285,8 @@ class SimLoop(asyncio.BaseEventLoop):
                     stalled[owner].append(handle)
                     continue
             is_timer = type(handle) is SimTimerHandle
+            if self._same_instant > self.max_same_instant - 40:
+                self.spin_trace.append(_describe(handle))
             handle._run()
             if is_timer:
                 self.fired += 1
@@ -308,6 +313,18 @@ class SimLoop(asyncio.BaseEventLoop):
                 if ctx.get(OWNER, "sim") == owner:
                     out.append(t)
         return out
+
+
+def _describe(handle):
+    cb = handle._callback
+    owner = getattr(cb, "__self__", None)
+    name = getattr(cb, "__qualname__", None) or repr(cb)
+    if isinstance(owner, asyncio.Task):
+        coro = owner.get_coro()
+        fr = getattr(coro, "cr_frame", None)
+        where = f"{fr.f_code.co_filename.rsplit('/', 1)[-1]}:{fr.f_lineno}" if fr else "?"
+        return f"step {owner.get_name()} {getattr(coro, '__qualname__', coro)} @{where}"
+    return name[:80]
 
 
 def _make_sim_ctx():
